@@ -238,6 +238,79 @@ class Gen:
             exts.append(m.Extension(f"ze{k}", t, vals[-1]))
         return m.Submodel("urn:vf:zoo", els, id_short="zoo", qualifier=quals, extension=exts)
 
+    def zoo_structures(self):
+        """one submodel in which every container class holds members of every element class (two of each where the container
+        allows it): lists of every item class, collections, entities, operations (all three variable sets) and annotated
+        relationships — the structural counterpart of `zoo_submodel`, for exhaustive per-position sweeps"""
+        m, dt = self.m, self.dt
+        k = [0]
+
+        def nid(prefix="z"):
+            k[0] += 1
+            return f"{prefix}{k[0]}"
+
+        def leaf(cls, ids):
+            kw = {"id_short": ids}
+            if cls == "Property":
+                return m.Property(ids, dt.Int, 1)
+            if cls == "MultiLanguageProperty":
+                return m.MultiLanguageProperty(ids, m.MultiLanguageTextType({"en": "t"}))
+            if cls == "Range":
+                return m.Range(ids, dt.Int, 1, 2)
+            if cls == "Blob":
+                return m.Blob(ids, "text/plain", b"x")
+            if cls == "File":
+                return m.File(ids, "text/plain", "/f.txt")
+            if cls == "ReferenceElement":
+                return m.ReferenceElement(ids, self.external_reference())
+            if cls == "Capability":
+                return m.Capability(ids)
+            if cls == "RelationshipElement":
+                return m.RelationshipElement(ids, self.external_reference(), self.external_reference())
+            if cls == "BasicEventElement":
+                return m.BasicEventElement(ids, self.model_reference("Submodel"), m.Direction.OUTPUT, m.StateOfEvent.ON)
+            if cls == "AnnotatedRelationshipElement":
+                return m.AnnotatedRelationshipElement(ids, self.external_reference(), self.external_reference(),
+                                                      annotation=[m.Property("p", dt.Int, 1), m.Property("q", dt.Int, 2)])
+            if cls == "SubmodelElementCollection":
+                return m.SubmodelElementCollection(ids, [m.Property("p", dt.Int, 1), m.Property("q", dt.Int, 2)])
+            if cls == "SubmodelElementList":
+                return m.SubmodelElementList(ids, m.Property, [m.Property(None, dt.Int, 1), m.Property(None, dt.Int, 2)],
+                                             value_type_list_element=dt.Int)
+            if cls == "Entity":
+                return m.Entity(ids, m.EntityType.CO_MANAGED_ENTITY, [m.Property("p", dt.Int, 1), m.Property("q", dt.Int, 2)])
+            if cls == "Operation":
+                return m.Operation(ids, [m.Property("i1", dt.Int, 1), m.Property("i2", dt.Int, 2)], [m.Property("o1", dt.Int, 1)],
+                                   [m.Property("io1", dt.Int, 1)])
+            raise ValueError(cls)
+        els = []
+        for cls in meta.SUBMODEL_ELEMENT_CLASSES:
+            els.append(m.SubmodelElementList(nid("l"), getattr(m, cls), [leaf(cls, None), leaf(cls, None)],
+                                             value_type_list_element=dt.Int if cls in ("Property", "Range") else None))
+        els.append(m.SubmodelElementCollection(nid("c"), [leaf(c, nid()) for c in meta.SUBMODEL_ELEMENT_CLASSES]))
+        els.append(m.Entity(nid("e"), m.EntityType.CO_MANAGED_ENTITY, [leaf(c, nid()) for c in meta.SUBMODEL_ELEMENT_CLASSES]))
+        els.append(m.Operation(nid("o"), [leaf(c, nid()) for c in meta.SUBMODEL_ELEMENT_CLASSES[:5]],
+                               [leaf(c, nid()) for c in meta.SUBMODEL_ELEMENT_CLASSES[5:10]],
+                               [leaf(c, nid()) for c in meta.SUBMODEL_ELEMENT_CLASSES[10:]]))
+        els.append(m.AnnotatedRelationshipElement(nid("a"), self.external_reference(), self.external_reference(),
+                                                  annotation=[leaf(c, nid()) for c in meta.DATA_ELEMENT_CLASSES]))
+        # ... and a complete IEC 61360 data specification (every optional attribute present), qualifiers, extensions, a description
+        b = m.base
+        iec = b.DataSpecificationIEC61360(
+            preferred_name=b.PreferredNameTypeIEC61360({"en": "name", "de": "Name"}), data_type=b.DataTypeIEC61360.STRING,
+            definition=b.DefinitionTypeIEC61360({"en": "definition"}), short_name=b.ShortNameTypeIEC61360({"en": "short"}),
+            unit="m", unit_id=self.external_reference(), source_of_definition="src", symbol="s", value_format="fmt",
+            value_list={m.ValueReferencePair("v1", self.external_reference()), m.ValueReferencePair("v2", self.external_reference())},
+            value="val", level_types={b.IEC61360LevelType.MIN, b.IEC61360LevelType.MAX})
+        return m.Submodel("urn:vf:structures", els, id_short="structures",
+                          display_name=m.MultiLanguageNameType({"en": "structures"}),
+                          description=m.MultiLanguageTextType({"en": "every container with every element", "de": "alles"}),
+                          administration=m.AdministrativeInformation(version="1", revision="2"),
+                          semantic_id=self.external_reference(), supplemental_semantic_id=[self.external_reference()],
+                          qualifier=[m.Qualifier("q1", dt.Int, 1, self.external_reference()), m.Qualifier("q2", dt.String)],
+                          extension=[m.Extension("e1", dt.String, "x", [self.model_reference("Submodel")])],
+                          embedded_data_specifications=[m.EmbeddedDataSpecification(self.external_reference(), iec)])
+
     def tz_small(self):
         r = self.rng.random()
         if r < 0.5:
